@@ -660,6 +660,18 @@ package logqlmetric
 // `sum(...) + vector(1)` finds no matching series and `vector(1) or sum(...)` yields two series
 // with the same (empty) label set.
 //@ scope labels.go
+// The label set of vector(c) has no labels whatever it is grouped by: grouping it gives the same
+// set back, and it is reported as the empty label set.
+//@ func (*emptyLabels).By
+//@   modifies nothing
+//@   ensures[still-no-labels] typeis[*emptyLabels](ret0) && as[*emptyLabels](ret0) == l
+//@ func (*emptyLabels).Without
+//@   modifies nothing
+//@   ensures[still-no-labels] typeis[*emptyLabels](ret0) && as[*emptyLabels](ret0) == l
+//@ func (*emptyLabels).AsLokiAPI
+//@   modifies nothing
+//@   ensures[reported-without-labels] ret0 != nil && len(ret0) == 0
+
 //@ func (*emptyLabels).Key
 //@   modifies nothing
 //@   ensures[key-of-no-labels] ret0 == hash64("")
